@@ -100,8 +100,12 @@ def run_hint_family(prop, tier, seed, jobs, limit, run_case=None, cases=None, le
     else:
         ctx = mp.get_context('fork')
         with ctx.Pool(min(jobs, max(1, n))) as pool:
+            done = 0
             for i, out in pool.imap_unordered(_work, range(n), chunksize=4):
                 outs[i] = out
+                done += 1
+                if done % 2000 == 0:
+                    print(f'[{prop} {tier}] {done}/{n} cases, {time.time() - t0:.0f}s', file=sys.stderr, flush=True)
     return report(prop, tier, seed, outs, time.time() - t0, level, explanation, extra_assumptions, funcs, post,
                   extra)
 
